@@ -361,7 +361,7 @@ def _dirty_pre(text, ast, L, Rj):
     return pre
 
 
-@contract(f"{ES}.solve", ["C02"], name="ExpressionSolver.solve[after-arbitrary-history]")
+@contract(f"{ES}.solve", ["C01", "C02"], name="ExpressionSolver.solve[after-arbitrary-history]")
 def _(c):
     c.bound = BOUND_SEQ + "; buffers at entry hold one of 8 leftover token patterns with symbolic values"
     c.assume_nonzero_divisors = True
@@ -369,6 +369,38 @@ def _(c):
         L, Rj = JUNK[i % len(JUNK)]
         text = R.render(toks, None, 1)
         c.scenario(f"{text.strip()} after {'.'.join(L) or '-'}|{'.'.join(Rj) or '-'}", _dirty_pre(text, ast, L, Rj))
+    c.requires("all([env[n] > 0 for n in env])")
+    c.ensures("typename(result) == 'AtomBase' and result.value == ev(ast, env)", "same-value-as-a-fresh-instance")
+    c.no_raise()
+
+
+# the same from instances that really solved something before (successfully or not), with the caller keeping and editing
+# an earlier result, and with the atoms' values changed in between
+HISTORIES = [("bare-atom-result-edited", ["a"], True), ("sum-then-product", ["a + b", "b"], True), ("failed-part-way", ["a < b +", "a * (b + d"], False),
+             ("failed-then-succeeded", ["f * sin(a, b)", "a"], True), ("same-expression-before", None, False)]
+
+
+def _history_pre(text, ast, hist, edit):
+    def pre(b):
+        env = {n: b.real(n) for n in NAMES}
+        b.symbolic_literals(env)
+        es = b.new(ES, b.cls(ATOM))
+        for h in (hist if hist is not None else [text]):
+            r, exc = b.call_catching(b.getattr(es, "solve"), b.text(h, env))
+            if edit and r is not None and exc is None:
+                b.setattr(r, "value", b.add(b.getattr(r, "value"), 1))   # the caller owns the result it was given
+        return dict(args=[es, b.text(text, env)], env=dict(env=b.dict(env), ast=ast))
+    return pre
+
+
+@contract(f"{ES}.solve", ["C01", "C02"], name="ExpressionSolver.solve[after-real-solves]")
+def _(c):
+    c.bound = BOUND_SEQ + "; the instance has solved 1-2 of the listed expressions before (some failing part-way), the caller edited the results"
+    c.assume_nonzero_divisors = True
+    for i, (toks, ast) in enumerate(C02_EXPRS[::3]):
+        name, hist, edit = HISTORIES[i % len(HISTORIES)]
+        text = R.render(toks, None, 1)
+        c.scenario(f"{text.strip()} after {name}", _history_pre(text, ast, hist, edit))
     c.requires("all([env[n] > 0 for n in env])")
     c.ensures("typename(result) == 'AtomBase' and result.value == ev(ast, env)", "same-value-as-a-fresh-instance")
     c.no_raise()
